@@ -39,9 +39,13 @@ func (e *Engine) verifyFunction(fc *FuncContract) *FnResult {
 	res.Decls = c.d
 	s := &State{heap: map[string]Term{}}
 	var args, binds []Value
+	// Parameter slices are modelled as views starting at index 0 of their own array object
+	// (assumption: incoming slices are identical views or disjoint, never partially overlapping).
+	c.paramMode = true
 	for _, p := range fn.Params {
 		args = append(args, c.freshValue(s, p.Type(), "p|"+p.Name()))
 	}
+	c.paramMode = false
 	for _, fv := range fn.FreeVars {
 		b := c.freshValue(s, fv.Type(), "fv|"+fv.Name())
 		if sc, ok := b.(Sc); ok {
